@@ -772,6 +772,10 @@ static void DecodeBYTE(Word Code) {
                         ;
                 }
                 break;
+            case TempReg:
+                WrStrErrorPos(ErrNum_ExpectIntOrString, &ArgStr[z]);
+                OK = False;
+                break;
             case TempFloat:
                 WrStrErrorPos(ErrNum_StringOrIntButFloat, &ArgStr[z]);
                 /* fall-through */
